@@ -909,7 +909,7 @@ class CHECK(Check):
                 f"ylabels={case['ystyle']}" if case["ykind"] != "continuous" else "ylabels=float"]
         nontriv = False
         if "steps" in o:
-            multi = multi2 = zero = under = f22 = False
+            multi = multi2 = zero = under = f22 = rank2 = twoentries = False
             for st in o["steps"]:
                 tags.append("batch_rows=" + ("1" if len(st["rows"]) == 1 else "2-4" if len(st["rows"]) <= 4 else "5-16"))
                 for t in st["pred"]:
@@ -928,9 +928,23 @@ class CHECK(Check):
                             multi = True
                         if r >= 2 and c >= 2:
                             multi2 = True
+                        # shapes on which the NORM KIND is visible: >= 2 non-zero entries (L1 / max-abs differ from the 2-norm),
+                        # two non-proportional rows (rank >= 2: the spectral norm differs from the Frobenius norm)
+                        if len(fin) == len(t["b"]):
+                            bv = [F(v) for v in t["b"]]
+                            if sum(1 for v in bv if v != 0) >= 2:
+                                twoentries = True
+                            if r >= 2 and c >= 2 and not rank2:
+                                rows_ = [bv[i * c:(i + 1) * c] for i in range(r)]
+                                rank2 = any(rows_[i][k] * rows_[j][m] != rows_[i][m] * rows_[j][k]
+                                            for i in range(r) for j in range(i + 1, r) for k in range(c) for m in range(k + 1, c))
             tags.append("has_multirow_tensor" if multi else "only_single_row_tensors")
             if multi2:
                 tags.append("has_tensor_rows>=2_cols>=2")
+            if rank2:
+                tags.append("has_dLA/dW_rank>=2(non-proportional_rows)")
+            if twoentries:
+                tags.append("has_dLA/dW_with>=2_nonzero_entries")
             if zero:
                 tags.append("some_dLA/dW_zero")
             if under:
